@@ -16,7 +16,8 @@ EXPLANATION = (
     "moves and the Serialize impls of f64/DbF64 (used for Vec<DbF64>) are byte moves as well.")
 DECIDED = ["R12a writer/reader tag, placement (inline / out-of-line / mixed) and payload codec agreement (TABLE, 9 rows)",
            "R12b DbValueIndex layout constants (TABLE)",
-           "R12c f64 path is a bit move (no arithmetic)"]
+           "R12c f64 path is a bit move (no arithmetic)",
+           "R23b cursor discipline of the file-only variant (shared with C23)"]
 UNDECIDED = ["the round trip itself on concrete values (needs execution)",
              "String read inline goes through from_utf8_lossy: lossless only because a Rust String is valid UTF-8 "
              "and the inline bytes are the untruncated string (not decided structurally)",
